@@ -5,7 +5,8 @@
 (G) AuthGen: every table shape over 6 user names (absent / 2-field / 3-field line: 728);
     python adds line orders (sorted, reversed, seeded shuffles) and the candidate
     credentials (right / another user's / empty / wrong password, absent and empty user, and
-    near misses: user/password boundary moved, swapped, joined, padded, case-changed, truncated).
+    near misses: user/password boundary moved, swapped, joined, padded, case-changed, truncated);
+    reconnection storms: 8-36 goroutines putting such credentials to one shared handler at once.
 (T) the Go driver materialises each table as a credentials file, loads it with the real
     auth.FileHandler (and the static handler) and records every Authenticate outcome;
     AuthTrace requires load success and outcome = Admit with the entry's mount point.
@@ -88,6 +89,19 @@ def check(run):
     for u, p in [("admin", "secret"), ("", ""), ("a", ""), ("", "only-a-password"), ("ab", "ab")]:
         qs = [{"u": a, "p": b} for a in (u, "", "other", u + "x") for b in (p, "", "other", p + "x")] + near_misses(u, p)
         scns.append({"kind": "static", "table": [{"u": u, "p": p, "m": ""}], "order": [0], "queries": qs})
+    # a reconnection storm: many goroutines put right, wrong and near-miss credentials to the one shared handler at once (the broker
+    # authenticates on 20 concurrent workers); every single outcome must be what the table implies
+    stable = [{"u": u, "p": "pw-" + u, "m": ("tenant-" + u[0]) if i % 2 else ""} for i, u in enumerate(USERS[:5])]
+    sq = []
+    for e in stable:
+        sq += [{"u": e["u"], "p": e["p"]}, {"u": e["u"], "p": "wrong"}, {"u": e["u"], "p": stable[0]["p"] if e is not stable[0] else stable[1]["p"]}]
+    sq += [{"u": "mallory", "p": "pw-alice"}, {"u": "", "p": ""}] + near_misses(stable[0]["u"], stable[0]["p"])[:4]
+    nstorm = 2 if not thorough else 8
+    for k in range(nstorm):
+        scns.append({"kind": "file", "table": stable, "order": list(range(len(stable))), "queries": sq, "storm": 8 + 4 * k, "rounds": 40 if not thorough else 120})
+        scns.append({"kind": "static", "table": [{"u": "admin", "p": "secret", "m": ""}], "order": [0],
+                     "queries": [{"u": "admin", "p": "secret"}, {"u": "admin", "p": "wrong"}, {"u": "other", "p": "secret"}] + near_misses("admin", "secret")[:4],
+                     "storm": 8 + 4 * k, "rounds": 100 if not thorough else 300})
     spath = os.path.join(run.scratch, "scenarios.ndjson")
     with open(spath, "w") as f:
         for s in scns:
